@@ -52,14 +52,15 @@ func fullLayout() intoto.Layout {
 
 func emptyLayout() intoto.Layout { return gen.Layout(gen.FarFuture, nil, nil, nil) }
 
-var catalogueNames = []string{"link-full", "link-empty", "layout-full", "layout-empty"}
+var catalogueNames = []string{"link-full", "link-empty", "layout-full", "layout-empty", "link-nil"}
 
 // certificates are minted per process (random serial/signature): build the catalogue once per worker
 var cat map[string]any
 
 func catalogue() map[string]any {
 	if cat == nil {
-		cat = map[string]any{"link-full": fullLink(), "link-empty": emptyLink(), "layout-full": fullLayout(), "layout-empty": emptyLayout()}
+		cat = map[string]any{"link-full": fullLink(), "link-empty": emptyLink(), "layout-full": fullLayout(), "layout-empty": emptyLayout(),
+			"link-nil": intoto.Link{Type: "link", Name: "nil-collections"}}
 	}
 	return cat
 }
@@ -394,6 +395,65 @@ func judge(c *mcx.Ctx, cs Case) (obs, sig, class string) {
 			return "signature after load: " + err.Error(), "C11|characters|" + wr(cs.DSSE) + "|signature-lost-after-load|" + charClass(cs.Char), "violation"
 		}
 		return "ok", "", "character-preserved"
+	case "reload":
+		// what was set, signed and dumped is what the library's own loaders hand back: same metadata (absent
+		// collections stay absent, empty ones empty), same signable bytes, signature still valid
+		p := base
+		if cs.Alt != "" {
+			var ok bool
+			if p, ok = applyAlt(base, cs.Alt); !ok {
+				return "alteration not found", "", "skip"
+			}
+		}
+		before, err := signable(p, cs.DSSE)
+		if err != nil {
+			return err.Error(), "", "skip"
+		}
+		md, err := gen.Wrap(p, cs.DSSE, gen.Key("ed1").Full)
+		if err != nil {
+			return err.Error(), "", "skip"
+		}
+		path := filepath.Join(c.Work, "rl.json")
+		os.Remove(path)
+		md.Dump(path)
+		field := stripIdx(strings.SplitN(cs.Alt, ":", 2)[0])
+		if i := strings.LastIndex(cs.Alt, ":"); i >= 0 {
+			field += "|" + strings.TrimRight(cs.Alt[i+1:], "[]0123456789")
+		}
+		loaders := []string{"LoadMetadata"}
+		if !cs.DSSE {
+			loaders = append(loaders, "Metablock.Load")
+		}
+		for _, ld := range loaders {
+			var back intoto.Metadata
+			if ld == "LoadMetadata" {
+				back, err = intoto.LoadMetadata(path)
+			} else {
+				mb := &intoto.Metablock{}
+				err = mb.Load(path)
+				back = mb
+			}
+			c.Impl(1)
+			if err != nil {
+				return ld + ": " + err.Error(), "", "skip" // whether the loader accepts the content is C12's question
+			}
+			if !reflect.DeepEqual(norm(refschema.Tree(back.GetPayload())), norm(refschema.Tree(p))) {
+				return ld + ": loaded payload is not the metadata that was dumped: " + clip(gen.JSON(back.GetPayload())), "C11|reload|" + wr(cs.DSSE) + "|loaded-metadata-differs|" + field, "violation"
+			}
+			var after []byte
+			if mb, ok := back.(*intoto.Metablock); ok {
+				after, err = mb.GetSignableRepresentation()
+			} else {
+				after, err = payloadBytes(back.(*intoto.Envelope))
+			}
+			if err != nil || string(after) != string(before) {
+				return ld + ": signable bytes changed by dump and load: " + diffAt(after, before), "C11|reload|" + wr(cs.DSSE) + "|signable-bytes-change|" + field, "violation"
+			}
+			if err := back.VerifySignature(gen.Key("ed1").Pub); err != nil {
+				return ld + ": signature after load: " + err.Error(), "C11|reload|" + wr(cs.DSSE) + "|signature-lost-after-load|" + field, "violation"
+			}
+		}
+		return "ok", "", "reloaded-identical"
 	case "stability":
 		md, err := gen.Wrap(base, cs.DSSE, gen.Key("ed1").Full)
 		if err != nil {
@@ -532,6 +592,26 @@ func runSetHistory(c *mcx.Ctx, cs Case) (obs, sig, class string) {
 			if err := env.Sign(gen.Key("ed1").Full); err != nil {
 				return err.Error(), "", "skip"
 			}
+		case "SetRefused":
+			// content without a canonical form is refused, and a refused call changes nothing: neither the
+			// payload everybody else sees nor the one GetPayload hands out
+			if last == nil {
+				return "no object yet", "", "skip"
+			}
+			beforeObj := gen.JSON(env.GetPayload())
+			beforeBytes, _ := payloadBytes(env)
+			bad := fresh("refused")
+			bad.Command = []string{"other", "command"}
+			bad.ByProducts["ratio"] = 1.5
+			c.Impl(1)
+			if err := env.SetPayload(*bad); err == nil {
+				return "SetPayload accepted a non-integral number", "C11|set-history|content-without-canonical-form-accepted", "violation"
+			}
+			afterBytes, _ := payloadBytes(env)
+			if gen.JSON(env.GetPayload()) != beforeObj || string(afterBytes) != string(beforeBytes) {
+				return fmt.Sprintf("after the refused SetPayload (operation %d) GetPayload returns %s; payload bytes changed: %v", i, clip(gen.JSON(env.GetPayload())), string(afterBytes) != string(beforeBytes)),
+					"C11|set-history|refused-SetPayload-changed-the-envelope|after-" + strings.Join(cs.Ops[:i+1], ","), "violation"
+			}
 		}
 		if !check {
 			continue
@@ -564,8 +644,10 @@ func enumerate(thorough bool, emit func(Case)) {
 		p := catalogue()[name]
 		for _, dsse := range []bool{false, true} {
 			emit(Case{Part: "reference", Content: name, DSSE: dsse})
+			emit(Case{Part: "reload", Content: name, DSSE: dsse})
 			for _, a := range altNames(p) {
 				emit(Case{Part: "injective", Content: name, DSSE: dsse, Alt: a})
+				emit(Case{Part: "reload", Content: name, DSSE: dsse, Alt: a})
 			}
 			for _, st := range gen.JSONStyles {
 				emit(Case{Part: "stability", Content: name, DSSE: dsse, Style: st.Name})
@@ -594,7 +676,7 @@ func enumerate(thorough bool, emit func(Case)) {
 			}
 		}
 	}
-	ops := []string{"SetA", "SetB", "MutateInPlace", "AppendCommand", "ReSet", "Sign"}
+	ops := []string{"SetA", "SetB", "MutateInPlace", "AppendCommand", "ReSet", "Sign", "SetRefused"}
 	depth := 3
 	if thorough {
 		depth = 4
